@@ -238,6 +238,8 @@ def _flatten(body: list) -> list:
 RET_TYPES = [
     ["none"], ["int"], ["str"], ["opt", ["int"]], ["list", ["str"]], ["tuple", [["int"], ["str"]]], ["tuple", [["bool"], ["float"], ["str"]]],
     ["union", [["int"], ["str"]]], ["dict", ["str"], ["int"]], ["tuple", [["list", ["int"]], ["opt", ["str"]]]], ["tuple", [["int"]]], ["bool"],
+    # element types that repeat, or that only differ in the container (docstring entries can then be told apart by position alone)
+    ["tuple", [["int"], ["int"]]], ["tuple", [["str"], ["int"], ["str"]]], ["tuple", [["list", ["int"]], ["set", ["int"]]]], ["tuple", [["opt", ["str"]], ["opt", ["str"]], ["int"]]],
 ]  # fmt: skip
 DOC_NAMES = ["first", "second_value", "third", "res_x", "out_y", "this"]
 
@@ -288,8 +290,11 @@ def _case(draw: Any, args: dict) -> dict:
                 k = 1
                 mode = "unnamed"
             nm = draw(st.permutations(DOC_NAMES))
+            # the docstring may state its types in another order than the annotation (entries are matched by position;
+            # the default CODE preference keeps the annotated types)
+            rot = 1 if style == "NUMPYDOC" and k >= 2 and draw(st.integers(0, 3)) == 0 else 0
             for i in range(k):
-                tsrc = ref.render_py(elems[i] if style == "NUMPYDOC" else t, ref.Imports(), "") if True else ""
+                tsrc = ref.render_py(elems[(i + rot) % k] if style == "NUMPYDOC" else t, ref.Imports(), "") if True else ""
                 entries.append((nm[i] if mode == "named" else "", tsrc, f"tok{namer.fresh('d')}"))
         doc = result_doc(style, entries) if entries else (draw(st.sampled_from([None, "Just a description."])))
         f = gt.func(namer.fresh("ann_"), [gt.param("a", "pos", ["int"], None)], ret=t, doc=doc, tags=tags)
